@@ -25,6 +25,15 @@ def suffixName : Nat → String
   | 1 => "OFFSET"
   | _ => "R2"
 
+/-- lower-case suffix `validate_param_image` looks for -/
+def suffixLower : Nat → String
+  | 0 => "gain"
+  | 1 => "offset"
+  | _ => "r2"
+
+/-- the whole list of expected suffixes of a `3n`-band parameter image, in band order -/
+def expectedSuffixes (n : Nat) : List String := (List.range (3 * n)).map fun j => suffixLower (expectedSuffix n (j + 1))
+
 /-- `validate_param_image` on the band count -/
 def validCount (count : Nat) : Bool := count != 0 && count % 3 == 0
 
